@@ -108,7 +108,7 @@ class NewtonDyn:
 
         with self.ctx.sut():
             tw = Simulations.HyperElastic(meshlib.build(self.raw), make_law(self.cfg["newton"]["params"]))
-            if not hasattr(tw, TRIAL_ATTR):
+            if not hasattr(self.sim, TRIAL_ATTR):  # the live simulation has been through a Newton loop: it holds one
                 # the private trial state was renamed by a refactoring: the internal force cannot be evaluated at a
                 # chosen state any more, the run decides nothing (it never flags)
                 raise Discard("the Newton trial state of a simulation is not reachable (private attribute renamed)")
